@@ -16,4 +16,12 @@ def wor (_w a b : Nat) : Nat := a ||| b
 def wxor (_w a b : Nat) : Nat := a ^^^ b
 def wcast (w a : Nat) : Nat := a % 2 ^ w
 
+/-! Signed machine integers (`i64` counters such as `log_queue_wait.work`, which may dip below 0):
+values are `Int`s, `iwrap w` is the two's complement wrap to `w` bits. -/
+def iwrap (w : Nat) (x : Int) : Int := (x + 2 ^ (w - 1)) % 2 ^ w - 2 ^ (w - 1)
+def iadd (w : Nat) (a b : Int) : Int := iwrap w (a + b)
+def isub (w : Nat) (a b : Int) : Int := iwrap w (a - b)
+/-- `x as i<w>` for an unsigned `x` -/
+def icast (w : Nat) (x : Nat) : Int := iwrap w (x : Int)
+
 end Pdb.Gen
